@@ -309,22 +309,35 @@ def serveAll (caught : Bool) (logger : String) (s : Loop) (os : List Occ) : Loop
 structure SrcFile where
   name : String
   loads : Res              -- does running the file raise?
+  shutdownFns : Nat := 0   -- functions with a `@time_trigger("shutdown")` defined before the file raises (legacy subsystem)
 deriving Repr, DecidableEq, Inhabited
 
 structure Loaded where
   contexts : List String
   log : List LogRec
+  ran : List String := [] -- script functions that were run during the load pass (by file)
 deriving Repr, DecidableEq, Inhabited
+
+/-- `TrigInfo.stop()`, called for every function of a file whose load raised (`load_file`: `global_ctx.stop()`): the
+shutdown function runs `if self.run_on_shutdown and self.started` (current code, repair of finding C18-F10:
+`needsStart = true`; a trigger of a file that is still loading was never started) – before the repair
+`if self.run_on_shutdown` (`needsStart = false`) -/
+def stopUnstarted (needsStart : Bool) (f : SrcFile) : List String :=
+  if needsStart then [] else List.replicate f.shutdownFns f.name
 
 /-- `load_scripts`' loop over the planned files: `load_file` logs on the file's logger and re-raises without
 registering the context; `load_scripts` catches, reports "Failed to load" and goes on -/
-def loadAll : List SrcFile → Loaded → Loaded
+def loadAllC (needsStart : Bool) : List SrcFile → Loaded → Loaded
   | [], s => s
   | f :: r, s =>
     match f.loads with
-    | .ok => loadAll r { s with contexts := s.contexts ++ [f.name] }
+    | .ok => loadAllC needsStart r { s with contexts := s.contexts ++ [f.name] }
     | .raise e =>
-      loadAll r { s with log := s.log ++ [{ logger := f.name, exc := e, scriptTb := true },
-                                        { logger := "pyscript", exc := e, scriptTb := false }] }
+      loadAllC needsStart r { s with ran := s.ran ++ stopUnstarted needsStart f,
+                                     log := s.log ++ [{ logger := f.name, exc := e, scriptTb := true },
+                                                      { logger := "pyscript", exc := e, scriptTb := false }] }
+
+/-- the current code -/
+abbrev loadAll := loadAllC true
 
 end PsModel.C18
